@@ -155,6 +155,9 @@ func runTargeters(tt *testing.T, tape *simrt.Tape, keep bool) (out simrt.Outcome
 			skips[s] = tape.Biased(6, 1, 2)
 		}
 		bodies := kind == "http" && tape.Prob(1, 2)
+		sparse := kind == "json" && tape.Prob(1, 2)
+		ownHdr := func(i int) bool { return !sparse || i%3 != 1 }
+		ownBody := func(i int) bool { return !sparse || i%2 == 0 }
 		// default headers whose value slice has spare capacity (built by one append per -header flag), under a key
 		// that every target also sets
 		var defHdr http.Header
@@ -189,8 +192,16 @@ func runTargeters(tt *testing.T, tape *simrt.Tape, keep bool) (out simrt.Outcome
 			tr = vegeta.NewHTTPTargeter(rd, nil, defHdr)
 		case "json":
 			for i := 0; i < ntargets; i++ {
-				fmt.Fprintf(&src, "{\"method\":%q,\"url\":\"http://t/%d\",\"header\":{\"X-Idx\":[\"%d\"],\"X-Two\":[\"a%d\"]},\"body\":%q}\n", c15Method(i), i, i, i,
-					base64.StdEncoding.EncodeToString([]byte("body-"+strconv.Itoa(i))))
+				// in a sparse file not every object has a header or a body of its own (a decoder that reuses its
+				// scratch object hands such a target the fields of another)
+				fmt.Fprintf(&src, "{\"method\":%q,\"url\":\"http://t/%d\"", c15Method(i), i)
+				if ownHdr(i) {
+					fmt.Fprintf(&src, ",\"header\":{\"X-Idx\":[\"%d\"],\"X-Two\":[\"a%d\"]}", i, i)
+				}
+				if ownBody(i) {
+					fmt.Fprintf(&src, ",\"body\":%q", base64.StdEncoding.EncodeToString([]byte("body-"+strconv.Itoa(i))))
+				}
+				src.WriteString("}\n")
 			}
 			rd.data = src.Bytes()
 			tr = vegeta.NewJSONTargeter(rd, nil, defHdr)
@@ -201,7 +212,7 @@ func runTargeters(tt *testing.T, tape *simrt.Tape, keep bool) (out simrt.Outcome
 			}
 			tr = vegeta.NewStaticTargeter(tgts...)
 		}
-		w.Log.Addf("kind=%s targets=%d callers=%d calls=%d arms=%v chunk=%d parks=%d", kind, ntargets, ncallers, ncalls, arms, rd.chunk, rd.maxParks)
+		w.Log.Addf("kind=%s targets=%d callers=%d calls=%d arms=%v chunk=%d parks=%d sparse=%v", kind, ntargets, ncallers, ncalls, arms, rd.chunk, rd.maxParks, sparse)
 		sample = map[string]any{"targeter": kind, "targets": ntargets, "callers": ncallers, "calls": ncalls, "armed_breakpoints": len(arms), "source_chunk": rd.chunk}
 		w.Activate()
 		for i := 0; i < ncallers; i++ {
@@ -228,8 +239,15 @@ func runTargeters(tt *testing.T, tape *simrt.Tape, keep bool) (out simrt.Outcome
 				return -2, "a target that is not in the input: " + blob
 			}
 			wantHdr := fmt.Sprintf("X-Idx=%d;X-Two=%sa%d", idx, wantTwo, idx) + sortedMore(wantMore)
+			if !ownHdr(idx) {
+				// the defaults only
+				wantHdr = strings.TrimPrefix(sortedMore(wantMore), ";")
+				if wantTwo != "" {
+					wantHdr = "X-Two=" + strings.TrimSuffix(wantTwo, ",") + sortedMore(wantMore)
+				}
+			}
 			wantBody := ""
-			if kind == "json" || bodies {
+			if (kind == "json" && ownBody(idx)) || bodies {
 				wantBody = "body-" + strconv.Itoa(idx)
 			}
 			if f[1] != c15Method(idx) || f[3] != wantHdr || f[4] != wantBody {
